@@ -78,6 +78,8 @@ pub mod net;
 pub mod pipe;
 pub mod poll;
 pub mod process;
+#[cfg(a10_verif)]
+pub mod verif;
 
 cfg_select! {
     any(target_os = "android", target_os = "linux") => {
@@ -450,6 +452,24 @@ use {debug_detail, man_link, new_flag, syscall};
 
 /// Lock `mutex` clearing any poison set.
 fn lock<'a, T>(mutex: &'a std::sync::Mutex<T>) -> std::sync::MutexGuard<'a, T> {
+    #[cfg(all(a10_verif, any(target_os = "android", target_os = "linux")))]
+    if let Some(hooks) = verif::scheduler() {
+        // Never park in the OS, the scheduler decides who runs.
+        let addr = std::ptr::from_ref(mutex).addr();
+        (hooks.yield_point)(verif::Site::Lock, addr);
+        loop {
+            match mutex.try_lock() {
+                Ok(guard) => return guard,
+                Err(std::sync::TryLockError::Poisoned(err)) => {
+                    mutex.clear_poison();
+                    return err.into_inner();
+                }
+                Err(std::sync::TryLockError::WouldBlock) => {
+                    (hooks.yield_point)(verif::Site::LockBlocked, addr);
+                }
+            }
+        }
+    }
     match mutex.lock() {
         Ok(guard) => guard,
         Err(err) => {
@@ -462,6 +482,8 @@ fn lock<'a, T>(mutex: &'a std::sync::Mutex<T>) -> std::sync::MutexGuard<'a, T> {
 /// Same as [`lock`], but doesn't block if the mutex is locked.
 #[cfg(any(target_os = "android", target_os = "linux"))]
 fn try_lock<'a, T>(mutex: &'a std::sync::Mutex<T>) -> Option<std::sync::MutexGuard<'a, T>> {
+    #[cfg(a10_verif)]
+    verif::yield_point(verif::Site::TryLock, std::ptr::from_ref(mutex).addr());
     match mutex.try_lock() {
         Ok(guard) => Some(guard),
         Err(std::sync::TryLockError::Poisoned(err)) => {
@@ -550,6 +572,8 @@ impl PollingState {
     pub(crate) fn set_polling(&self, is_polling: bool) -> bool {
         const _BOOL_CAST_CHECK_TRUE: () = assert!(true as u8 == IS_POLLING);
         const _BOOL_CAST_CHECK_FALSE: () = assert!(false as u8 == NOT_POLLING);
+        #[cfg(a10_verif)]
+        verif::yield_point(verif::Site::PollingSet, std::ptr::from_ref(&self.0).addr());
         let state = self.0.swap(is_polling as u8 | NOT_AWOKEN, Ordering::AcqRel);
         (state & IS_AWOKEN) != 0
     }
@@ -559,6 +583,8 @@ impl PollingState {
     /// Returns a boolean indicating if the caller should submit an event to
     /// wake up the polling thread.
     pub(crate) fn wake(&self) -> bool {
+        #[cfg(a10_verif)]
+        verif::yield_point(verif::Site::PollingWake, std::ptr::from_ref(&self.0).addr());
         let state = self.0.fetch_or(IS_AWOKEN, Ordering::AcqRel);
         state == (IS_POLLING | NOT_AWOKEN)
     }
